@@ -8,7 +8,9 @@ from vf.api import Harness, S, hit
 import dns.exception
 import dns.name
 import dns.tokenizer
+import dns.wirebase
 
+from harness.common import step_budget
 from harness.oracles import Reject, fold, fold_octet, ref_name_from_wire, valid_labels
 
 PROPERTY = "C01"
@@ -140,7 +142,9 @@ def h01e(buf: bytes, off: int) -> bool:
     except Reject:
         ref = None
     try:
-        n, used = dns.name.from_wire(buf, off)
+        # termination: with strictly decreasing pointers a buffer of n octets allows < n hops
+        with step_budget(dns.wirebase.Parser, "seek", len(buf) + 2):
+            n, used = dns.name.from_wire(buf, off)
     except dns.exception.FormError:
         return ref is None
     if ref is None:
